@@ -24,22 +24,25 @@ htp_tx_t *htp_connp_tx_create(htp_connp_t *c){ ev(EV_TXCREATE); return c->in_tx;
 void htp_conn_track_inbound_data(htp_conn_t *conn, size_t len, const htp_time_t *t){ }
 htp_status_t htp_hook_run_all(htp_hook_t *hook, void *user_data){ return HTP_OK; }
 static int done[2];
+/* one driver call: the states a fragment of this START can traverse, each at most once and in their only possible order
+ * (a loop over "whatever in_state says" makes CBMC inline every state function in every iteration) */
+#define STEP(S) if(!stop && !done[R] && c->in_state==S){ htp_status_t rc=S(c); \
+        if(rc==HTP_OK){ c->in_state_previous=c->in_state; } \
+        else { assert(rc==HTP_DATA||rc==HTP_DATA_BUFFER); htp_connp_req_receiver_send_data(c,0); if(rc==HTP_DATA_BUFFER){ htp_status_t b=htp_connp_req_buffer(c); assert(b==HTP_OK); } stop=1; } }
 static void feed(htp_connp_t *c, unsigned char *data, size_t len){
     c->in_current_data=data; c->in_current_len=(int64_t)len; c->in_current_read_offset=0; c->in_current_consume_offset=0; c->in_current_receiver_offset=0; c->in_chunk_count++;
-    for(int k=0;k<7;k++){ htp_status_t rc;
-        if(done[R]) break;
-        if(c->in_state==htp_connp_REQ_HEADERS) rc=htp_connp_REQ_HEADERS(c);
-        else if(c->in_state==htp_connp_REQ_LINE) rc=htp_connp_REQ_LINE(c);
-        else if(c->in_state==htp_connp_REQ_PROTOCOL) rc=htp_connp_REQ_PROTOCOL(c);
-        else if(c->in_state==htp_connp_REQ_FINALIZE) rc=htp_connp_REQ_FINALIZE(c);
-        else if(c->in_state==htp_connp_REQ_IDLE) rc=htp_connp_REQ_IDLE(c);
-        else { done[R]=1; break; }
-        if(rc==HTP_OK){ c->in_state_previous=c->in_state; continue; }
-        assert(rc==HTP_DATA||rc==HTP_DATA_BUFFER);
-        htp_connp_req_receiver_send_data(c,0);
-        if(rc==HTP_DATA_BUFFER){ htp_status_t b=htp_connp_req_buffer(c); assert(b==HTP_OK); }
-        return; }
-    if(done[R]){ ev(EV_REST); evbytes(data+c->in_current_read_offset,len-(size_t)c->in_current_read_offset); }
+    int stop=0;
+    if(done[R]){ evbytes(data,len); return; }      /* the fragment's states are finished: everything else belongs to the successor state */
+#if START==3
+    STEP(htp_connp_REQ_FINALIZE) STEP(htp_connp_REQ_IDLE)
+#endif
+#if START>=2
+    STEP(htp_connp_REQ_LINE) STEP(htp_connp_REQ_PROTOCOL)
+#endif
+#if START<=2 && !defined(NOHDR)
+    STEP(htp_connp_REQ_HEADERS)
+#endif
+    if(!stop && !done[R]){ done[R]=1; ev(EV_REST); evbytes(data+c->in_current_read_offset,len-(size_t)c->in_current_read_offset); }
 }
 static void run(int r, unsigned char *buf, size_t len, size_t cut){
     R=r; htp_connp_t *c=&C[r]; htp_tx_t *tx=&TX[r];
